@@ -970,6 +970,32 @@ def denominators(roots: List[T]) -> List[T]:
     return list(dict.fromkeys(n.args[1] for n in postorder(roots) if n.op == "/"))
 
 
+# ------------------------------------------------------------------ trigonometric atoms -> rational parametrisation
+TRIG_PREFIX = "trig!"
+
+
+def rationalize_trig(roots: List[T]):
+    """Replace sin(x), cos(x), tan(x) by 2t/(1+t^2), (1-t^2)/(1+t^2), 2t/(1-t^2) with a fresh real t = tan(x/2)
+    per distinct argument x. Covers every angle except x = pi (mod 2 pi). Returns (new_roots, {t_name: x})."""
+    args: Dict[T, T] = {}
+    for n in postorder(roots):
+        if n.op == "fn" and n.args[0] in ("sin", "cos", "tan"):
+            args.setdefault(n.args[1], None)
+    if not args:
+        return roots, {}
+    mapping: Dict[T, T] = {}
+    back: Dict[str, T] = {}
+    for k, x in enumerate(args):
+        name = f"{TRIG_PREFIX}{x.args[0] if x.op == 'v' else format(x._h & 0xFFFFFFFF, 'x')}"
+        t = var(name)
+        back[name] = x
+        d = add(ONE, mul(t, t))
+        mapping[fn("sin", x)] = div(mul(const(2), t), d)
+        mapping[fn("cos", x)] = div(sub(ONE, mul(t, t)), d)
+        mapping[fn("tan", x)] = div(mul(const(2), t), sub(ONE, mul(t, t)))
+    return substitute(roots, mapping), back
+
+
 # ------------------------------------------------------------------ z3 translation
 _Z3: Dict[T, object] = {}
 
@@ -1088,8 +1114,8 @@ def _replay_side(t: T, ctx: Z3Ctx):
         z = _Z3[n]
         a = [_Z3[k] for k in kids(n)]
         if name == "sqrt":
-            ctx.side += [z >= 0, z * z == a[0]]
-            ctx.note("sqrt: r>=0 & r*r==x")
+            ctx.side.append(z3.Implies(a[0] >= 0, z3.And(z >= 0, z * z == a[0])))
+            ctx.note("sqrt: x>=0 -> (r>=0 & r*r==x)")
         elif name in ("sin", "cos"):
             s = z3.Function("sin", z3.RealSort(), z3.RealSort())(a[0])
             c = z3.Function("cos", z3.RealSort(), z3.RealSort())(a[0])
